@@ -19,6 +19,13 @@ pub struct Ent {
     mode: u32,
     content: Content,
     method: u16,
+    /// low (MS-DOS) byte of the external attributes: read-only 0x01, directory 0x10, archive 0x20 ...
+    /// (Info-ZIP mirrors it from the Unix mode; it must not change the mode of a Unix-made entry)
+    #[serde(default)]
+    attr_low: u8,
+    /// entry made by an MS-DOS/FAT producer: the mode then follows from the DOS attributes alone
+    #[serde(default)]
+    dos_made: bool,
 }
 #[derive(Clone, Debug, Serialize, Deserialize, Hash)]
 pub struct Case {
@@ -117,7 +124,11 @@ fn check(c: &Case, info: &mut Info) -> Result<(), String> {
             let mut s = EntrySpec::simple(name.as_bytes(), if e.dir { 0 } else { e.method }, if e.dir { Content::Bytes(vec![]) } else { e.content.clone() });
             s.utf8 = true;
             let ty = if e.dir { 0o040000 } else if e.symlink_typed { 0o120000 } else { 0o100000 };
-            s.external_attr = (ty | (e.mode & 0o777)) << 16;
+            s.external_attr = ((ty | (e.mode & 0o777)) << 16) | e.attr_low as u32;
+            if e.dos_made {
+                s.made_by = 20;
+                s.external_attr = (e.attr_low as u32 & !0x10) | if e.dir { 0x10 } else { 0 };
+            }
             s
         })
         .collect();
@@ -390,7 +401,14 @@ fn safe_case() -> BoxedStrategy<Vec<Ent>> {
                 // some file entries are typed as symbolic links (their content is the link text)
                 let sym = !dir && mode % 8 == 5;
                 let content = if sym { Content::Bytes(format!("zv_link_target_{}", mode).into_bytes()) } else { content };
-                out.push(Ent { name, dir, symlink_typed: sym, mode, content, method: if sym { 0 } else { method } });
+                // producer-dependent attribute bytes, derived from the generated values
+                let h = crate::util::hash_of(&(name.as_str(), mode));
+                let dos_made = !sym && h % 6 == 0;
+                let mut attr_low = [0u8, 0, 0, 0x01, 0x20, 0x21, 0x30, 0x11, (h >> 8) as u8, 0][(h >> 16) as usize % 10];
+                if dir && dos_made {
+                    attr_low &= !1; // a read-only DOS directory would block its own children
+                }
+                out.push(Ent { name, dir, symlink_typed: sym, mode, content, method: if sym { 0 } else { method }, attr_low, dos_made });
             }
             // explicit directory entries whose permissions would block children must come after
             // their children? extraction applies the mode at once, so keep dirs >= 0o700 (done)
@@ -419,7 +437,7 @@ fn hostile_name(base_canary: String) -> BoxedStrategy<String> {
 }
 
 pub fn run(ctx: &mut Ctx) {
-    ctx.rule("archives built by the independent builder with names from a SAFE pool (unique nested paths, explicit dirs >= 0o700, any permission bits on files, no conflicts) or a HOSTILE pool ('..' chains up to 8 deep, absolute paths into a disposable canary directory, NUL, backslash chains, mixed '\\' and '/' separators in front of a '..' chain, './..' prefixes, duplicates, file/dir conflicts, symlink-typed entries, deep nesting), central directory order shuffled against the physical order in a third of the cases; explicit directory entries may follow entries below them; a quarter of the cases pass a relative target path with leading '..' components; a quarter of the safe archives get one bit flipped in an entry's data or declared CRC (extraction must fail or have written only original content); symlink-typed entries also occur in the safe pool (regular file with the link text, or a symbolic link with that target, are both accepted); extracted with ZipArchive::extract and ZipStreamReader::extract into a 12-level nested sandbox under /var/tmp. Oracle: recursive snapshot (type, mode, content hash) of everything outside the target is unchanged; an archive with an unsafe name (C06 string model) returns Err; an all-safe archive returns Ok and the tree equals the model exactly (implied parents, contents, mode & 0o777 for every entry that records one). Non-trivial = has a hostile name, or >=3 safe entries with nesting.");
+    ctx.rule("archives built by the independent builder with names from a SAFE pool (unique nested paths, explicit dirs >= 0o700, any permission bits on files, no conflicts; entries made by Unix with any MS-DOS attribute byte next to the mode, or made by MS-DOS with the mode following from the DOS attributes) or a HOSTILE pool ('..' chains up to 8 deep, absolute paths into a disposable canary directory, NUL, backslash chains, mixed '\\' and '/' separators in front of a '..' chain, './..' prefixes, duplicates, file/dir conflicts, symlink-typed entries, deep nesting), central directory order shuffled against the physical order in a third of the cases; explicit directory entries may follow entries below them; a quarter of the cases pass a relative target path with leading '..' components; a quarter of the safe archives get one bit flipped in an entry's data or declared CRC (extraction must fail or have written only original content); symlink-typed entries also occur in the safe pool (regular file with the link text, or a symbolic link with that target, are both accepted); extracted with ZipArchive::extract and ZipStreamReader::extract into a 12-level nested sandbox under /var/tmp. Oracle: recursive snapshot (type, mode, content hash) of everything outside the target is unchanged; an archive with an unsafe name (C06 string model) returns Err; an all-safe archive returns Ok and the tree equals the model exactly (implied parents, contents, mode & 0o777 for every entry that records one). Non-trivial = has a hostile name, or >=3 safe entries with nesting.");
     ctx.assume("hostile names use only zv_-prefixed components, at most 8 '..' (cannot leave the 12-level nest) and absolute paths only under the run's own canary directory, so even a tree with broken sanitisation cannot touch anything real");
     ctx.assume("symlink-typed entries are extracted as regular files (what the code does; it cannot escape)");
     let n = ctx.q(8000, 60000);
@@ -436,7 +454,7 @@ pub fn run(ctx: &mut Ctx) {
             let hostile = (safe_case(), proptest::collection::vec((hostile_name(canary), any::<bool>(), any::<bool>(), 0u32..512, crate::refzip::content::content(300)), 1..4), any::<u16>(), any::<bool>(), shuf(), rel()).prop_map(|(mut entries, hs, at, stream, central_shuffle, rel_target)| {
                 for (i, (name, dir, sym, mode, content)) in hs.into_iter().enumerate() {
                     let pos = ((at as usize + i * 7919) * (entries.len() + 1)) >> 16;
-                    entries.insert(pos.min(entries.len()), Ent { name, dir, symlink_typed: sym, mode, content, method: 0 });
+                    entries.insert(pos.min(entries.len()), Ent { name, dir, symlink_typed: sym, mode, content, method: 0, attr_low: 0, dos_made: false });
                 }
                 // duplicates and file/dir conflicts
                 if entries.len() >= 2 && at % 3 == 0 {
